@@ -240,6 +240,70 @@ pub fn gen_seq(seed: u64, ncases: u64, maxlen: u64, zero_ok: bool, rebuilds: boo
             out.push(format!("match {} {}", q, show_id(&taker)));
             let _ = lvl.match_order(q, taker, &generator);
         }
+        if !big && r.chance(1, 30) {
+            // churn scenario: a level that has seen many makers and many removals (cancels, amends, price moves)
+            // before the history proper - 15..257 of them, around the powers of two - so that any bookkeeping
+            // that depends on HOW MANY orders came and went (stale tickets, counters, thresholds) is exercised;
+            // user timestamps are not monotone in arrival order
+            let n0 = *r.pick(&[18u64, 24, 40, 70]);
+            let mut next_id = 200u64;
+            for _ in 0..n0 {
+                let o = random_order(&mut r, pool_id(next_id), price, zero_ok, false);
+                next_id += 1;
+                let supplied = o.visible_quantity() as u128 + o.hidden_quantity() as u128;
+                if (total + supplied) * (price.max(1 << 20) as u128) >= (1u128 << 63) { continue; }
+                total += supplied;
+                out.push(format!("add {}", show_order(&o)));
+                lvl.add_order(o);
+            }
+            out.push("state".to_string());
+            let nrem = *r.pick(&[15u64, 16, 17, 31, 32, 33, 64, 65, 100, 129, 257]);
+            for _ in 0..nrem {
+                let live: Vec<OrderId> = lvl.iter_orders().iter().map(|o| o.id()).collect();
+                if live.len() < 5 {
+                    let o = random_order(&mut r, pool_id(next_id), price, zero_ok, false);
+                    next_id += 1;
+                    let supplied = o.visible_quantity() as u128 + o.hidden_quantity() as u128;
+                    if (total + supplied) * (price.max(1 << 20) as u128) < (1u128 << 63) {
+                        total += supplied;
+                        out.push(format!("add {}", show_order(&o)));
+                        lvl.add_order(o);
+                    }
+                    continue;
+                }
+                let id = *r.pick(&live);
+                let ids = show_id(&id);
+                match r.below(10) {
+                    0..=4 => {
+                        out.push(format!("upd cancel {ids}"));
+                        let _ = lvl.update_order(pricelevel::OrderUpdate::Cancel { order_id: id });
+                    }
+                    5..=7 => {
+                        let n = r.range(1, 12);
+                        if (total + n as u128) * (price.max(1 << 20) as u128) >= (1u128 << 63) { continue; }
+                        total += n as u128;
+                        out.push(format!("upd qty {ids} {n}"));
+                        let _ = lvl.update_order(pricelevel::OrderUpdate::UpdateQuantity { order_id: id, new_quantity: n });
+                    }
+                    8 => {
+                        let p = price + 1 + r.below(3);
+                        out.push(format!("upd price {ids} {p}"));
+                        let _ = lvl.update_order(pricelevel::OrderUpdate::UpdatePrice { order_id: id, new_price: p });
+                    }
+                    _ => {
+                        let q = r.range(1, 4);
+                        let taker = pool_id(900);
+                        out.push(format!("match {} {}", q, show_id(&taker)));
+                        let _ = lvl.match_order(q, taker, &generator);
+                    }
+                }
+                out.push("state".to_string());
+            }
+            if rebuilds && r.chance(1, 2) {
+                out.push(format!("fork {}", r.pick(&["snapshot", "json"])));
+                forked = true;
+            }
+        }
         for _ in 0..len {
             let live: Vec<OrderId> = lvl.iter_orders().iter().map(|o| o.id()).collect();
             if rebuilds && r.chance(1, 12) {
@@ -379,6 +443,33 @@ pub fn gen_queue(seed: u64, ncases: u64, maxlen: u64, out: &Sink) {
         } else {
             out.push("qnew".to_string());
         }
+        if r.chance(1, 40) {
+            // churn scenario: many pushes (timestamps not monotone in push order), many removals by id (15..70),
+            // a few pops in between, before the history proper
+            let n0 = *r.pick(&[18u64, 24, 40, 72]);
+            for i in 0..n0 {
+                let id = pool_id(200 + i);
+                let o = random_order(&mut r, id, 100, true, false);
+                out.push(format!("q.push {}", show_order(&o)));
+                shadow.push(Arc::new(o));
+                ever.push(id);
+            }
+            let nrem = (*r.pick(&[15u64, 16, 17, 21, 31, 32, 33, 64, 65])).min(n0 - 2);
+            for _ in 0..nrem {
+                let live: Vec<OrderId> = shadow.to_vec().iter().map(|o| o.id()).collect();
+                if live.len() <= 2 { break; }
+                if r.chance(1, 12) {
+                    out.push("q.pop".to_string());
+                    let _ = shadow.pop();
+                    continue;
+                }
+                let id = *r.pick(&live);
+                out.push(format!("q.remove {}", show_id(&id)));
+                let _ = shadow.remove(id);
+            }
+            out.push("q.len".to_string());
+            out.push("q.tovec".to_string());
+        }
         for _ in 0..len {
             let live: Vec<OrderId> = shadow.to_vec().iter().map(|o| o.id()).collect();
             match r.below(100) {
@@ -413,7 +504,8 @@ pub fn gen_queue(seed: u64, ncases: u64, maxlen: u64, out: &Sink) {
                 _ => out.push("q.tovec".to_string()),
             }
         }
-        for _ in 0..(npool + 1) {
+        let left = shadow.to_vec().len() as u64;
+        for _ in 0..(npool + 1).max(left + 1) {
             out.push("q.pop".to_string());
         }
         out.push("q.len".to_string());
